@@ -323,6 +323,18 @@ def _list_common(root: Any, op: dict, a: Action, idx: Any) -> tuple[Any, S.Prop,
 def _r_list(root: Any, op: dict, a: Action, idx: Any) -> Action:
     P, p, w, cur, _ = _list_common(root, op, a, idx)
     name = op['op']
+    if name == 'assign':
+        # the whole field replaced by (a deep copy of) another model's field: model.raw_xs = copy.deepcopy(other.raw_xs)
+        import copy
+        src = find_model(root, op['src']['cls'], op['src']['mi'], idx)
+        neww = copy.deepcopy(getattr(src, p.name))
+        new = list(neww)
+        a.shape = f'assign:{min(len(cur), 2)}->{min(len(new), 2)}'
+        a.ref.update(cur=cur, new=new, wrapper=neww, raw_wrapper=neww, expected=new)
+        # the list node itself is what is replaced: its zero-width placeholder goes with it
+        a.removed, a.inserted = cur + [w.repeated.placeholder], new + [neww.repeated.placeholder]
+        a._run = lambda: setattr(P, p.name, neww)
+        return a
     new = [_donor(d) for d in op.get('donors', [])]
     i, j, k = op.get('i', 0), op.get('j'), op.get('k')
     a.shape = shape_of(name, i, j, k, len(cur), len(new))
@@ -905,6 +917,9 @@ def gen_for(g: L.G, root: Any, m: Any, p: S.Prop, cname: str, mi: int, shape: Op
         w = getattr(m, p.name)
         n = len(w)
         name = shape or g.pick(LIST_OPS)
+        if not shape and g.p(0.06):
+            same = index_models(root).get(cname, [])
+            return {'f': 'list', **base_op, 'op': 'assign', 'src': {'cls': cname, 'mi': g.n(0, len(same) - 1) if same else 0}}
         return _gen_listop(g, 'list', base_op, name, n, lambda: donor_for(g, m, p, misfit), misfit)
     if p.kind in ('fview', 'rawmeta', 'meta'):
         w = getattr(m, p.name)
